@@ -3,6 +3,7 @@
   Property theorems only; helper lemmas live in CedarProofs/Prefix.lean.
 -/
 import CedarProofs.Prefix
+import CedarProofs.IncrPrefix
 
 namespace Cedar.C02
 
@@ -108,6 +109,78 @@ theorem recv_prefix_midstream (S S' R R' : Stream) (k : Nat) (iv ivR : IV) (dg d
     (advWire_advFrame hsep hsent hownE hadv)
   simpa [hops] using this
 
+theorem items_flags {items : List Item} {ops : List SendOp} (hops : items.map Item.op = ops)
+    (hfl : ∀ op ∈ ops, op.2 ≤ 1) : ∀ it ∈ items, it.flag ≤ 1 := by
+  intro it hit
+  have : it.op ∈ ops := by rw [← hops]; exact List.mem_map_of_mem hit
+  exact hfl _ this
+
+/-- **recv_prefix_incremental**: the prefix guarantee for the OTHER message-level receive path —
+    `StartMessageRead` (→ `readNextFrame`), `ReadMessageBytes(chunk)` until it reports end-of-message,
+    `EndMessageRead` — for every chunk size, every send history whose end flags are the ones the
+    sending API can produce (0/1), and every Dolev–Yao rewriting of the wire: what the application
+    is handed before the first error is a prefix of the messages sent, boundaries intact. In
+    particular a wire that ends (or is cut) inside a multi-frame message yields an error, never the
+    truncated message. The receiving stream starts outside a message with an empty receive buffer. -/
+theorem recv_prefix_incremental (S S' R R' : Stream) (k : Nat) (ivS ivR : IV) (ops opsR : List SendOp)
+    (sent own w : List WireFrame) (hivS : ivS.w0 < 2^32) (hivR : ivR.w0 < 2^32)
+    (hsep : ivS.tail ≠ ivR.tail) (hfl : ∀ op ∈ ops, op.2 ≤ 1)
+    (hclean : R.inMessage = false) (hbuf : R.recvBuf = [])
+    (hsend : (S.setKey k ivS).sendAll ops = .ok (S', sent))
+    (hown : (R.setKey k ivR).sendAll opsR = .ok (R', own))
+    (hadv : AdvWire k sent own w) (chunk : Nat) (hchunk : 0 < chunk) (fuel : Nat) :
+    Stream.deliverIncFuel fuel chunk (R.setKey k ivR) w <+: messagesOf [] ops := by
+  obtain ⟨items, hsent, hops, hlim, _, _⟩ :=
+    sendAll_spec ops _ S' 0 sent (setKey_sendInv S k ivS) hsend
+  obtain ⟨itemsR, hownE, _, _, _, _⟩ :=
+    sendAll_spec opsR _ R' 0 own (setKey_sendInv R k ivR) hown
+  have hr : RecvInv (R.setKey k ivR) k ivS 0 0 :=
+    ⟨rfl, rfl, rfl, by simp [Stream.setKey], fun h => absurd rfl h⟩
+  have := deliverInc_prefix (dg := (S.dig.fs, S.dig.fr)) (ownIV := ivR) hchunk hivS hlim (items_flags hops hfl) fuel
+    (R.setKey k ivR) w 0 (Nat.zero_le _) hr (fun _ => ⟨rfl, hivR⟩)
+    (advWire_advFrame (dgR := (R.dig.fs, R.dig.fr)) hsep hsent hownE hadv) hclean hbuf
+  simpa [hops] using this
+
+/-- **recv_prefix_incremental_midstream**: the same from any reachable state of an established
+    session (after earlier traffic, or after a crypto-state hand-off, C15). -/
+theorem recv_prefix_incremental_midstream (S S' R R' : Stream) (k : Nat) (iv ivR : IV) (dg dgR : Digest × Digest) (c0 cR : Nat)
+    (ops opsR : List SendOp) (sent own w : List WireFrame) (hiv : iv.w0 < 2^32) (hivR : ivR.w0 < 2^32)
+    (hsep : iv.tail ≠ ivR.tail) (hfl : ∀ op ∈ ops, op.2 ≤ 1)
+    (hclean : R.inMessage = false) (hbuf : R.recvBuf = [])
+    (hS : SendInv S k iv dg c0) (hR : RecvInv R k iv c0 0) (hRs : SendInv R k ivR dgR cR)
+    (hsend : S.sendAll ops = .ok (S', sent)) (hown : R.sendAll opsR = .ok (R', own))
+    (hadv : AdvWire k sent own w) (chunk : Nat) (hchunk : 0 < chunk) (fuel : Nat) :
+    Stream.deliverIncFuel fuel chunk R w <+: messagesOf [] ops := by
+  obtain ⟨items, hsent, hops, hlim, _, _⟩ := sendAll_spec ops S S' c0 sent hS hsend
+  obtain ⟨itemsR, hownE, _, _, _, _⟩ := sendAll_spec opsR R R' cR own hRs hown
+  have := deliverInc_prefix (dg := dg) (ownIV := ivR) hchunk hiv hlim (items_flags hops hfl) fuel R w 0
+    (Nat.zero_le _) hR (fun _ => ⟨hRs.iv, hivR⟩) (advWire_advFrame hsep hsent hownE hadv) hclean hbuf
+  simpa [hops] using this
+
+/-- **recv_prefix_frames**: the frame-level receive path — plain `ReceiveFrame`, on which
+    `GetSecret` and `GetFile` sit and which returns no end flag — hands the application only an
+    in-order prefix of the frame PAYLOADS the sender's application passed to `sendMessageWithEnd`,
+    under the same adversary: no forged, empty, replayed or reflected frame is ever handed over. -/
+theorem recv_prefix_frames (S S' R R' : Stream) (k : Nat) (ivS ivR : IV) (ops opsR : List SendOp)
+    (sent own w : List WireFrame) (hivS : ivS.w0 < 2^32) (hivR : ivR.w0 < 2^32)
+    (hsep : ivS.tail ≠ ivR.tail)
+    (hsend : (S.setKey k ivS).sendAll ops = .ok (S', sent))
+    (hown : (R.setKey k ivR).sendAll opsR = .ok (R', own))
+    (hadv : AdvWire k sent own w) :
+    Stream.deliverFrames (R.setKey k ivR) w <+: ops.map Prod.fst := by
+  obtain ⟨items, hsent, hops, hlim, _, _⟩ :=
+    sendAll_spec ops _ S' 0 sent (setKey_sendInv S k ivS) hsend
+  obtain ⟨itemsR, hownE, _, _, _, _⟩ :=
+    sendAll_spec opsR _ R' 0 own (setKey_sendInv R k ivR) hown
+  have hr : RecvInv (R.setKey k ivR) k ivS 0 0 :=
+    ⟨rfl, rfl, rfl, by simp [Stream.setKey], fun h => absurd rfl h⟩
+  have := deliverFrames_prefix (dg := (S.dig.fs, S.dig.fr)) (ownIV := ivR) hivS hlim
+    w (R.setKey k ivR) 0 (Nat.zero_le _) hr (fun _ => ⟨rfl, hivR⟩)
+    (advWire_advFrame (dgR := (R.dig.fs, R.dig.fr)) hsep hsent hownE hadv)
+  have hp : items.map Item.plain = ops.map Prod.fst := by
+    rw [← hops, List.map_map]; rfl
+  simpa [hp] using this
+
 /-- **no_bypass**: on a keyed, encrypting stream every frame `ReceiveFrameWithEnd` accepts went
     through `decryptDataWithAAD` — there is no length class (empty frames included) that is
     returned without authentication. -/
@@ -158,6 +231,14 @@ example : Stream.deliver (({} : Stream).setKey 7 ⟨5, []⟩) demoSent = [[1,2,3
 example : Stream.deliver (({} : Stream).setKey 7 ⟨5, []⟩) (demoSent.eraseIdx 1) = [] := by decide
 example : Stream.deliver (({} : Stream).setKey 7 ⟨5, []⟩) (demoSent.eraseIdx 2) = [[1,2,3]] := by decide
 example : Stream.deliver (({} : Stream).setKey 7 ⟨5, []⟩) (demoSent ++ [⟨1, 0, .raw []⟩]) = [[1,2,3], [], [9,9]] := by decide
+
+-- the incremental API on the same wires: full delivery; a wire cut inside the multi-frame message
+-- delivers nothing (never the truncated message); plain ReceiveFrame hands over the payloads
+example : Stream.deliverIncFuel 9 2 (({} : Stream).setKey 7 ⟨5, []⟩) demoSent = [[1,2,3], [], [9,9]] := by decide
+example : Stream.deliverIncFuel 9 2 (({} : Stream).setKey 7 ⟨5, []⟩) (demoSent.take 1) = [] := by decide
+example : Stream.deliverIncFuel 9 1 (({} : Stream).setKey 7 ⟨5, []⟩) (demoSent.eraseIdx 2) = [[1,2,3]] := by decide
+example : Stream.deliverFrames (({} : Stream).setKey 7 ⟨5, []⟩) demoSent = [[1,2], [3], [], [9,9]] := by decide
+example : Stream.deliverFrames (({} : Stream).setKey 7 ⟨5, []⟩) (⟨1, 0, .raw []⟩ :: demoSent) = [] := by decide
 
 /-- **reflection_rejected** (the case that failed before fix D16, as a concrete test): on a stream
     keyed with NOTHING exchanged in clear beforehand both transcript digests are the zero digest,
